@@ -314,6 +314,23 @@ theorem NEG_same_file_two_roles :
       = ⟨["./proj/data.txt".toList, "proj/a.py".toList], ["proj/data.txt".toList]⟩ := by
   decide +kernel
 
+/-! ### Targets are a set -/
+
+/-- **no path is listed twice**, in either list: a file reached through two targets (`-r pkg pkg/sub`, a directory named twice) is one file -/
+theorem lists_have_no_duplicates (fs : Fs) (cfg : Config) (targets : List Str) (r : Bool) (xp : Str) :
+    (discoverFiles fs cfg targets r xp).files.Nodup ∧ (discoverFiles fs cfg targets r xp).excluded.Nodup :=
+  ⟨sortedSet_nodup _, sortedSet_nodup _⟩
+
+/-- **order and repetition of the targets are irrelevant**: two target lists with the same members give the same two lists (seeded change C12-m16 kept the
+order of the targets and dropped the set: overlapping targets were scanned twice) -/
+theorem targets_order_and_repetition_irrelevant (fs : Fs) (cfg : Config) (ts ts' : List Str) (r : Bool) (xp : Str)
+    (h : ∀ t, t ∈ ts ↔ t ∈ ts') : discoverFiles fs cfg ts r xp = discoverFiles fs cfg ts' r xp :=
+  discoverFiles_targets_ext fs cfg ts ts' r xp h
+
+example : discoverFiles projFs Config.noFile ["proj".toList, "proj".toList] true defaultX = discoverFiles projFs Config.noFile ["proj".toList] true defaultX ∧
+    (discoverFiles projFs Config.noFile ["proj".toList, "proj".toList] true defaultX).files = ["proj/a.py".toList] := by
+  decide +kernel
+
 /-! ### Non-vacuity: the hypotheses above are satisfiable by non-trivial values -/
 
 /-- `partition`'s hypothesis holds for a real directory target and the walk is non-empty. -/
